@@ -18,10 +18,21 @@
                                                                             + sum over range(m-2), no unit vector)
      *_with_sparsity                          C11_*_sp   = cp.reshape(T @ vec, (k,k)) with cvxpy's default
                                               column-major ('F') order, T's columns being ROW-major flattenings *)
-From Coq Require Import Arith List Bool.
+From Coq Require Import Arith List Bool String ZArith.
 From QV.Core Require Import OF Sums Mat Cplx.
 From QV.Model Require Import QObj C11_Pgdb.
 Import ListNotations.
+
+(* num_cvxpy_variable(t, dim, num_outcomes): length of the CVXPY variable = number of real parameters with the equality constraint
+   built in.  None = ValueError (unknown type, dim <= 0, missing num_outcomes). *)
+Definition C11_num_var (t : string) (dim : Z) (num_outcomes : option Z) : option Z :=
+  if (dim <=? 0)%Z then None else
+  let D := (dim * dim)%Z in
+  if String.eqb t "state" then Some (D - 1)%Z
+  else if String.eqb t "povm" then option_map (fun m => ((m - 1) * D)%Z) num_outcomes
+  else if String.eqb t "gate" then Some (D * D - D)%Z
+  else if String.eqb t "mprocess" then option_map (fun m => (m * (D * D) - D)%Z) num_outcomes
+  else None.
 
 Section C11_Cvx.
 Context (F : OF).
